@@ -73,6 +73,12 @@ fn main() {
             match lsp::reference::lints_for(&text, &lang, &lsp::reference::Settings::default(), &words, &[]) {
                 lsp::reference::Reference::Unsupported => println!("unsupported language"),
                 lsp::reference::Reference::Lints(r) => {
+                    if std::env::var("HSIM_SHOW_TOKENS").is_ok() {
+                        for t in r.document.get_tokens() {
+                            let txt: String = r.source[t.span.start..t.span.end.min(r.source.len())].iter().collect();
+                            println!("token {:?} {:?} {}", t.span, txt, format!("{:?}", t.kind).chars().take(40).collect::<String>());
+                        }
+                    }
                     if let Ok(w) = std::env::var("HSIM_SHOW_TOKEN") {
                         for t in r.document.get_tokens() {
                             let txt: String = r.source[t.span.start..t.span.end.min(r.source.len())].iter().collect();
